@@ -96,6 +96,7 @@ def main(argv=None):
     ap.add_argument('--no-controls', action='store_true')
     ap.add_argument('--jobs', type=int, default=int(os.environ.get('VERIF_JOBS', '16')))
     ap.add_argument('--verbose', '-v', action='store_true')
+    ap.add_argument('--keys', action='store_true', help='print the keys of unlisted findings in KNOWN_FINDINGS.txt syntax')
     a = ap.parse_args(argv)
     prop = a.property
     seed = int(os.environ.get('VERIF_SEED', '0') or 0)
@@ -132,6 +133,10 @@ def main(argv=None):
             for r in rres:
                 if r['status'] == 'FALSE-ALARM':
                     problems.append('behaviour-preserving variant %r raised an alarm: %s' % (r['name'], r.get('why')))
+        if a.keys:
+            for f in ctx.findings:
+                if not known.match(f):
+                    print('known: property=%s rule=%s construct=%s stmt=%s :: <what fails>' % (f.prop, f.rule, f.construct, f.stmt))
         if a.verbose:
             for rid, c in sorted(ctx.rule_counts.items()):
                 print('  %-10s instances=%-4d nontrivial=%-4d %s' % (rid, c[0], c[1], ctx.rule_doc.get(rid, '')[:90]))
